@@ -59,6 +59,11 @@ def key_signature(fn, t):
     if isinstance(t, tuple) and t[0] == 'call' and t[1] in ('abs', 'fabs') and len(t) == 3:
         ab = True
         t = t[2]
+    elif isinstance(t, tuple) and t[0] == 'call' and t[1] == 'norm' and len(t) == 3:
+        # squared modulus: mathematically monotone in |x| but NOT order-equivalent in floating point
+        # (it under/overflows for |x| outside roughly [1e-154, 1e154] and turns distinct magnitudes into ties)
+        ab = 'squared-modulus'
+        t = t[2]
     p = [fn.locals[v]['name'] for v in fn.params]
     if t == ('P', p[0]):
         return (sign, ab, 'value')
